@@ -993,8 +993,11 @@ class RouteMon(Monitor):
         self.g_in = {}
         self.g_out = {}
         self.path_group = {}
+        self.cmd_block = {}      # what the MODEL commanded (spec, operations, schedule actions), whatever the device remembers
         for d in w.spec['devices']:
             self.kinds[d['name']] = d['kind']
+            if d.get('blocked'):
+                self.cmd_block[d['name']] = True
             if d['kind'] == 'group':
                 self.members[d['name']] = list(d['members'])
                 self.g_in[d['name']] = list(d.get('inputs') or d['members'][:1])
@@ -1086,8 +1089,9 @@ class RouteMon(Monitor):
                     if getattr(a, 'name', None) == rname and isinstance(a, PartFlowController):
                         rdev = a
                         break
-                if g[10]:
-                    raise Violation('blocked_input', f'part {pid} entered {rname} whose input is blocked')
+                if g[10] or self.cmd_block.get(rname):
+                    raise Violation('blocked_input', f'part {pid} entered {rname} whose input is blocked'
+                                    + ('' if g[10] else ' (blocked by the model; the device itself no longer says so)'))
                 # edge check against the specification graph
                 if isinstance(prev_dev, GroupOutput):
                     # the part leaves the group of prev_dev: through the innermost path it entered by
@@ -1169,10 +1173,13 @@ class RouteMon(Monitor):
         # refused top-level attempts: note for vacuity
         if any(g is not None and not g[6] for g in gives):
             w.facts.append('refusal')
-        for d in w.dev.values():
-            if _is_cycle_dev(d) and d.name in self.idle_since and d._part is None and d._output is None \
-                    and not self.pre_idle.get(d.name, None) is not None and False:
-                pass
+        # what the model commands from now on: block operations and the schedule actions that open / close an input
+        xop = w.executed_op(ev)
+        if xop is not None and xop[0] == 'block':
+            self.cmd_block[xop[1]] = bool(xop[2])
+        for t in tl:
+            if t[0] == 'sched_action' and t[5] == 'default' and t[2] in self.kinds:
+                self.cmd_block[t[2]] = (t[4] == 'off')
         self.check_histories(w)
 
     def idle_candidates(self, w, giver, quality, depth=0):
